@@ -290,7 +290,7 @@ def gen_random(rng, n):
     return ops
 
 
-def check_extend(res, rng, tag):
+def check_extend(res, rng, tag, model=None):
     """the network-editing command: reduce-by-species / remove-species / remove-duplicate / append-*"""
     base = ol.scratch_dir()
     reset_globals()
@@ -332,6 +332,28 @@ def check_extend(res, rng, tag):
         args += ["--remove-species=CO", "--append-depletion"]
         want = [(["H", "H"], ["H2"]), (["C", "H2"], ["CH", "H"])] + [([s], ["#" + s]) for s in ("C", "CH", "H", "H2")]
     case = {"kind": "c14-extend", "args": args}
+    # the model's pipeline (C14.extend_consistent, reduce_keeps_listed_only, append_step_spec) on the same options
+    m_have = None
+    if model is not None:
+        gas = ["H", "H2", "C", "CH", "O", "CO", "OH"]
+        ids = {n: i for i, n in enumerate(gas + ["#" + g for g in gas])}
+        opt = {a.split("=")[0]: (a.split("=", 1)[1] if "=" in a else "1") for a in args[3:]}
+        wire = [[i, o.idxfromfile, [[ids[x.name] for x in o.reactants], [ids[x.name] for x in o.products], [x.name for x in o.reactants],
+                                    [x.name for x in o.products], fnum(o.temp_min), fnum(o.temp_max), f"{o.temp_min:7.1f}", f"{o.temp_max:7.1f}",
+                                    int(o.reaction_type), o.reaction_type.name]] for i, o in enumerate(rl)]
+        aps = []
+        if "--append-depletion" in opt:
+            aps.append([[[ids[g], ids["#" + g]] for g in gas], int(ReactionType.GRAIN_FREEZE)])
+        for key, ty in (("--append-thermal-desorption", ReactionType.GRAIN_DESORB_THERMAL), ("--append-photon-desorption", ReactionType.GRAIN_DESORB_PHOTON),
+                        ("--append-cosmic-ray-desorption", ReactionType.GRAIN_DESORB_COSMICRAY)):
+            if key in opt:
+                aps.append([[[ids["#" + g], ids[g]] for g in gas], int(ty)])
+        red = [ids[x] for x in opt["--reduce-by-species"].split(",")] if "--reduce-by-species" in opt else "none"
+        rem = [ids[x] for x in opt["--remove-species"].split(",")] if "--remove-species" in opt else []
+        rep = model.call("net.extend", wire, red, rem, "1" if "--remove-duplicate" in opt else "0", aps)
+        names = {v: k for k, v in ids.items()}
+        m_have = sorted((sorted(names[int(x)] for x in r), sorted(names[int(x)] for x in p_)) for r, p_, _, _ in rep)
+        m_idx = [int(i) for _, _, _, i in rep]
     rc, out, err = naunet_cli(args, base)
     res.count(f"extend:{variant}")
     if rc != 0 or not (base / "out.naunet").exists():
@@ -342,6 +364,10 @@ def check_extend(res, rng, tag):
         have = sorted((sorted(s.name for s in r.reactants), sorted(s.name for s in r.products)) for r in got.reaction_list)
         if have != sorted((sorted(r), sorted(p)) for r, p in want):
             res.violation("oracle", f"`naunet {' '.join(args[3:])}` wrote reactions {have}, expected {sorted((sorted(r), sorted(p)) for r, p in want)}", case)
+        if m_have is not None and (m_have != have or m_idx != [r.idxfromfile for r in got.reaction_list]):
+            res.corr_disagreements += 1
+            res.violation("correspondence", f"`naunet {' '.join(args[3:])}`: implementation wrote {have} (indices {[r.idxfromfile for r in got.reaction_list]}), "
+                                            f"the model's pipeline gives {m_have} (indices {m_idx})", case)
         if [r.idxfromfile for r in got.reaction_list] != list(range(len(got.reaction_list))):
             res.violation("oracle", f"extend output not re-indexed: {[r.idxfromfile for r in got.reaction_list]}", case)
     ol.cleanup_scratch()
@@ -370,7 +396,7 @@ def run(res, info):
         rq = [x for x in rng.choice(REQUIRED) if not al or x in al]
         check_history(res, model, ids, al, rq, gen_random(rng, n), i)
     for i in range(8 if res.tier == "quick" else 32):
-        check_extend(res, rng, i)
+        check_extend(res, rng, i, model)
     if model:
         model.close()
 
